@@ -43,11 +43,15 @@ def acceptState (s : St) (si : BitVec 16) (st : Sender.Stream) (ppi : BitVec 32)
                                  wrapBuf := s.snd.wrapBuf || (Sender.packetize s.snd.cfg st si s.snd.nextMsg ppi len).wrap } }
     (Sender.packetize s.snd.cfg st si s.snd.nextMsg ppi len).chunks
 
+/-- the record of a call parked by `write` -/
+def parkedCall (s : St) (si : BitVec 16) (st : Sender.Stream) (ppi : BitVec 32) (len : Nat) (dl : Option Nat) : Waiter :=
+  { wid := s.nextWid, si := si, chunks := (Sender.packetize s.snd.cfg st si s.snd.nextMsg ppi len).chunks,
+    unordered := (Sender.packetize s.snd.cfg st si s.snd.nextMsg ppi len).unordered, n := len, deadline := dl }
+
 /-- the state with the call parked: stream after `packetize`, nothing pushed -/
 def parkState (s : St) (si : BitVec 16) (st : Sender.Stream) (ppi : BitVec 32) (len : Nat) (dl : Option Nat) : St :=
   { s with snd := { Sender.setStream s.snd si (Sender.packetize s.snd.cfg st si s.snd.nextMsg ppi len).st with nextMsg := s.snd.nextMsg + 1 },
-           waiters := s.waiters ++ [{ wid := s.nextWid, si := si, chunks := (Sender.packetize s.snd.cfg st si s.snd.nextMsg ppi len).chunks,
-                                      unordered := (Sender.packetize s.snd.cfg st si s.snd.nextMsg ppi len).unordered, n := len, deadline := dl }],
+           waiters := s.waiters ++ [parkedCall s si st ppi len dl],
            nextWid := s.nextWid + 1 }
 
 /-- the three outcomes of `write`: no trace / accepted / parked -/
@@ -86,7 +90,7 @@ theorem write_cases (s : St) (si : BitVec 16) (ppi : BitVec 32) (len : Nat) (dl 
         exact rollback_after_packetize s si st _ ppi len hs
       · right; right
         refine ⟨st, rfl, hlen, by simpa using c1, by simpa using c2, by simpa using c4, c5, by simpa using c6, c7, by simpa using c8, ?_⟩
-        simp only [Sapi.write, hs, c1, c2, c3, c4, c5, c6, c7, c8, if_true, if_false, Bool.false_eq_true, parkState]
+        simp only [Sapi.write, hs, c1, c2, c3, c4, c5, c6, c7, c8, if_true, if_false, Bool.false_eq_true, parkState, parkedCall]
     · right; left
       refine ⟨st, rfl, hlen, by simpa using c1, by simpa using c2, by simpa using c4, c5, by simpa using c6, by simpa using c7, ?_⟩
       simp only [Sapi.write, hs, c1, c2, c3, c4, c5, c6, c7, if_false, Bool.false_eq_true, acceptState]
